@@ -614,9 +614,8 @@ MUTANTS = [
            expect_rule="segmentation/invariant"),
     Mutant("v2-length-read-from-new-segment", V2, "        size = struct.unpack(\"!H\", self.buffer[14:16])[0] + 16", "        size = struct.unpack(\"!H\", data[14:16])[0] + 16",
            expect_rule="segmentation/invariant"),
-    Mutant("wrapper-forwards-segment-instead-of-remainder-late", W, "        if self._proxyInfo is not None:\n            return self.wrappedProtocol.dataReceived(data)\n        parser = self._parser\n",
-           "        if self._parser is not None and self._proxyInfo is None and not data:\n            return None\n        if self._proxyInfo is not None:\n            return self.wrappedProtocol.dataReceived(data[:64])\n        parser = self._parser\n",
-           expect_rule="segmentation/invariant"),
+    Mutant("v2-parser-buffer-dropped-while-header-incomplete", V2, "        if len(self.buffer) < size:\n            return (None, None)\n",
+           "        if len(self.buffer) < size:\n            self.buffer = self.buffer[:16]\n            return (None, None)\n", expect_rule="segmentation/invariant"),
     Mutant("v1-unknown-not-allowed", V1, "    ALLOWED_NET_PROTOS = (\n        TCP4_PROTO,\n        TCP6_PROTO,\n        UNKNOWN_PROTO,\n    )", "    ALLOWED_NET_PROTOS = (\n        TCP4_PROTO,\n        TCP6_PROTO,\n    )",
            expect_rule="v1table/allowed-protocols"),
 ]
